@@ -20,6 +20,86 @@ def truly(ss, sn, fs, ds, dn, fd):
         return sn - fs <= dn - fd
     return (not ss) and ds and sn - fs + 1 <= dn - fd
 
+GENC = '/verif/lean/SfxModel/GeneratedConv.lean'
+PRIM = {'i8': (True, 8), 'i16': (True, 16), 'i32': (True, 32), 'i64': (True, 64), 'i128': (True, 128), 'isize': (True, 16),
+        'u8': (False, 8), 'u16': (False, 16), 'u32': (False, 32), 'u64': (False, 64), 'u128': (False, 128), 'usize': (False, 16), 'bool': (False, 1)}
+
+def table(name):
+    s = open(GENC).read()
+    m = re.search(r'def ' + name + r'[^\n]*:= \[(.*?)\n\]', s, re.S)
+    rows = []
+    for line in m.group(1).splitlines():
+        line = line.strip().rstrip(',')
+        if not line.startswith('('):
+            continue
+        parts = [x.strip() for x in line[1:-1].split(',')]
+        rows.append([x[1:-1] if x.startswith('"') else (x == 'true') if x in ('true', 'false') else int(x) for x in parts])
+    return rows
+
+def fx(s, n, f):
+    return f"substrate_fixed::Fixed{'I' if s else 'U'}{n}<substrate_fixed::types::extra::U{f}>"
+
+def prim_cases():
+    """probe statements for the rows of GeneratedConv.lean that the row-soundness predicates of SfxProofs/ExtFrom.lean reject"""
+    out = []
+    # int / bool -> fixed: generic rows admit FracDst with srcBits <= C - FracDst
+    for (tr, nm, ss, sn, ds, dn, g, c) in table('fromIntImpls'):
+        if nm in ('isize', 'usize'):
+            continue
+        if not g:
+            bad = not (ss == ds and sn == dn); fds = [0]
+        else:
+            ok = (c == dn) if ss == ds else ((not ss) and ds and c + 1 == dn)
+            bad = not ok
+            fds = [fd for fd in range(min(c, dn) + 1) if sn <= c - fd and not ((sn <= dn - fd) if ss == ds else ((not ss) and ds and sn + 1 <= dn - fd))]
+        if not bad or not fds:
+            continue
+        fd = fds[-1]
+        lo, hi = (-(1 << (sn - 1)), (1 << (sn - 1)) - 1) if ss else (0, (1 << sn) - 1)
+        for v in sorted({lo, hi, hi - 1, lo + 1, (1 << (sn - 1)) if not ss else -1, 1}):
+            if not (lo <= v <= hi):
+                continue
+            lit = ('true' if v else 'false') if nm == 'bool' else f'({v}i128) as {nm}'
+            call = f'<{fx(ds, dn, fd)} as From<{nm}>>::from({lit})' if tr == 'From' else f'<{fx(ds, dn, fd)} as LossyFrom<{nm}>>::lossy_from({lit})'
+            op = 'icvt_from' if tr == 'From' else 'icvt_from_lossy'
+            out.append(f'    {{ let y = {call}; println!("{op} {int(ds)} {dn} {fd} {nm} {v} => {{}}", y.to_bits()); }}')
+    # fixed -> int: lossy rows admit FracSrc with srcBits - FracSrc <= C; From rows are FracSrc = 0
+    for (tr, ss, sn, dnm, ds, g, c) in table('toIntImpls'):
+        if dnm not in PRIM:
+            continue
+        ds2, w = PRIM[dnm]
+        if g:
+            ok = tr == 'LossyFrom' and ((c <= w) if ss == ds else ((not ss) and ds and c + 1 <= w))
+            fs_list = [fs for fs in range(sn + 1) if sn - fs <= c]
+        else:
+            ok = tr == 'From' and ((sn <= w) if ss == ds else ((not ss) and ds and sn + 1 <= w))
+            fs_list = [0]
+        if ok and ds2 == ds or not fs_list:
+            continue
+        fs = fs_list[0]
+        lo, hi = (-(1 << (sn - 1)), (1 << (sn - 1)) - 1) if ss else (0, (1 << sn) - 1)
+        for v in sorted({lo, hi, hi - 1, lo + 1, 1}):
+            lit = f'({v}i128) as {"i" if ss else "u"}{sn}'
+            call = f'<{dnm} as From<{fx(ss, sn, fs)}>>::from(x)' if tr == 'From' else f'<{dnm} as LossyFrom<{fx(ss, sn, fs)}>>::lossy_from(x)'
+            op = 'icvt_into' if tr == 'From' else 'icvt_lossy'
+            out.append(f'    {{ let x = <{fx(ss, sn, fs)}>::from_bits({lit}); let y = {call}; println!("{op} {int(ss)} {sn} {fs} {v} {dnm} => {{}}", y); }}')
+    # fixed -> float `From` rows: the source must fit the significand
+    for (tr, ss, sn, fl, f16) in table('toFloatImpls'):
+        if f16 or tr != 'From' or fl not in ('f32', 'f64'):
+            continue
+        prec = 24 if fl == 'f32' else 53
+        if sn <= prec:
+            continue
+        lo, hi = (-(1 << (sn - 1)), (1 << (sn - 1)) - 1) if ss else (0, (1 << sn) - 1)
+        for fs in (0, sn):
+            for v in sorted({hi, hi - 1, lo + 1, (1 << (prec + 1)) + 1, (1 << (sn - 2)) + 1}):
+                if not (lo <= v <= hi):
+                    continue
+                lit = f'({v}i128) as {"i" if ss else "u"}{sn}'
+                out.append(f'    {{ let x = <{fx(ss, sn, fs)}>::from_bits({lit}); let y = <{fl} as From<{fx(ss, sn, fs)}>>::from(x); '
+                           f'println!("fcvt_from {int(ss)} {sn} {fs} {v} {fl} => {{}}", y.to_bits()); }}')
+    return out
+
 def main():
     cases = []
     for (tr, ss, sn, ds, dn, leF, ib) in rows():
@@ -36,7 +116,11 @@ def main():
             else:
                 continue
             break
-    if not cases:
+    try:
+        prim = prim_cases()
+    except Exception as e:   # a table the translator could not write: nothing to probe here
+        sys.stderr.write('from_probe: primitive tables not readable: %r\n' % (e,)); prim = []
+    if not cases and not prim:
         return 0
     ty = lambda s, n, f: f"substrate_fixed::Fixed{'I' if s else 'U'}{n}<substrate_fixed::types::extra::U{f}>"
     body = ['#[allow(unused_imports)]', 'use substrate_fixed::traits::LossyFrom;', 'fn main() {']
@@ -50,6 +134,7 @@ def main():
             op = 'cvt_from' if tr == 'From' else 'cvt_lossy'
             body.append(f'    {{ let x = <{ty(ss, sn, fs)}>::from_bits({lit}); let y = {call}; '
                         f'println!("{op} {int(ss)} {sn} {fs} {v} {int(ds)} {dn} {fd} => {{}}", y.to_bits()); }}')
+    body += prim[:200]
     body.append('}')
     open(PROBE + '/src/main.rs', 'w').write('\n'.join(body) + '\n')
     e = dict(os.environ); e['CARGO_NET_OFFLINE'] = 'true'
